@@ -261,6 +261,7 @@ pub fn run(opts: &Options) -> Report {
         configuration line"
         .into();
     let mut rng = Rng::new(opts.seed);
+    super::seed_client_randomness(opts.seed);
     let n_cfg = if opts.thorough() { 40_000 } else { 3_000 };
     let calls_per_cfg = if opts.thorough() { 40 } else { 12 };
 
